@@ -1,6 +1,7 @@
 import XmpModel.FmtMod
 import XmpModel.FmtS3m
 import XmpModel.FmtXm
+import XmpModel.FmtIt
 /-! Native driver for C19.  Line protocol (stdin → stdout):
 
 * `gen <fmt> <id> <seed> <size>` : builds a random well-formed abstract song and writer
@@ -342,6 +343,92 @@ def gen (size : Nat) : G (Module × Opts × String) := do
 
 end GenXm
 
+
+namespace GenIt
+open It
+
+def genCell (nz : Nat) (palette : List Cell) : G Cell := do
+  if !(← chance nz) then return {}
+  -- repeated values exercise the "same as last" compression
+  if (← chance 35) then return palette.getD (← below palette.length) {}
+  let note ← match (← below 12) with
+    | 0 => pure KEY_OFF | 1 => pure KEY_CUT | 2 => pure KEY_FADE
+    | 3 | 4 | 5 => pure 0
+    | _ => range 1 120
+  let ins ← if (← chance 70) then range 1 99 else if (← chance 15) then range 100 255 else pure 0
+  let vol ← if (← chance 50) then range 1 65 else pure 0
+  return { note := note, ins := ins, vol := vol }
+
+def genSlot (i maxLen : Nat) : G (Ins × Smp) := do
+  let name ← genName 25
+  if (← chance 25) then
+    return ({ name := name, subs := [] }, { name := [], len := 0, lps := 0, lpe := 0, flg := 0, pcm := [] })
+  let flg0 := (if (← chance 45) then F16BIT else 0) + (if (← chance 25) then FSTEREO else 0)
+  let len ← if (← chance 15) then range 2 5 else range 2 maxLen
+  let vol ← range 0 64
+  let pan ← range 0 64
+  let lt ← below 4
+  let (lps, lpe) ← if lt ≥ 2 then genLoop len else pure (0, 0)
+  let st ← below 4
+  let (sus, sue) ← if st ≥ 2 then genLoop len else pure (0, 0)
+  let flg := flg0 + (if lt = 2 then FLOOP else if lt = 3 then FLOOP + FBIDIR else 0) +
+             (if st = 2 then FSLOOP else if st = 3 then FSLOOP + FSBIDIR else 0)
+  let pcm ← genRawPcm (len * frameBytes flg)
+  return ({ name := name, subs := [{ sid := i, vol := vol, pan := (pan * 4 : Nat), xpo := 0, fin := 0 }] },
+          { name := [], len := len, lps := lps, lpe := lpe, flg := flg, sus := sus, sue := sue, pcm := pcm })
+
+def gen (size : Nat) : G (Module × Opts × String) := do
+  let chn ← if (← chance 60) then range 1 8 else range 1 64
+  let npat ← if (← chance 5) then range 1 60 else range 1 (2 + size)
+  let npat := if size = 0 then min npat 3 else npat
+  let len ← range 1 (min 256 (4 + 10 * size))
+  let ords ← listOf len (do
+    if (← chance 12) then return (if (← chance 50) then 0xfe else 0xff) else below npat)
+  let ords := ords.map u8
+  let first ← below npat
+  let ords := if S3m.playable ords then ords else u8 first :: ords.drop 1
+  let nz ← range 3 95
+  let palette ← listOf 4 (genCell 100 [])
+  let emptyPat ← below (npat + 3)
+  let pats ← (List.range npat).mapM fun k => do
+    let rows ← match (← below 5) with
+      | 0 => range 1 4 | 1 => pure 64 | 2 => pure 200
+      | _ => range 1 (if size = 0 then 32 else 128)
+    let rows := if chn > 16 then min rows 64 else rows
+    let cells ← listOf (rows * chn) (genCell (if k = emptyPat then 0 else nz) palette)
+    return ({ rows := rows, cells := cells } : Pat)
+  let nsmp ← if (← chance 10) then range 0 1 else range 1 (3 + 4 * size)
+  let maxLen := if size = 0 then 40 else if size = 1 then 400 else 3000
+  let slots ← (List.range nsmp).mapM fun i => genSlot i maxLen
+  let name ← genName 25
+  let spd ← range 1 255
+  let bpm ← range 32 255
+  let sseed ← next
+  let cseed ← next
+  let xseed ← next
+  let lastMode ← below 3
+  let fxOn ← chance 70
+  let nullEmpty ← chance 50
+  let m : Module := { name := name, chn := chn, orders := ords, pats := pats, ins := slots.map (·.1),
+                      smps := slots.map (·.2), spd := spd, bpm := bpm }
+  let o : Opts := { cwt := (if (← chance 50) then 0x0214 else 0x0888), cmwt := (if (← chance 50) then 0x0214 else 0x0200),
+                    flags := (← below 256), gv := u8 (← range 0 128), mv := u8 (← below 129),
+                    signed := fun i => hashNat sseed i % 2 = 0,
+                    c5spd := fun i => 4000 + hashNat sseed (i + 500) * 173,
+                    nullEmpty := nullEmpty,
+                    cell := fun i =>
+                      let h := hashNat cseed i
+                      let (a, b) := hashFx xseed i
+                      { useLast := if lastMode = 0 then 0 else if lastMode = 1 then 7 else h % 8,
+                        forceMask := h / 8 % 4 = 0, forceIns := h / 32 % 8 = 0,
+                        fx := if fxOn ∧ h / 64 % 2 = 0 then some (u8 (a.toNat % 36), b) else none,
+                        fade := hashNat cseed (i + 77) },
+                    chpan := fun k => u8 (hashNat cseed (k + 9000) % 65),
+                    chvol := fun k => u8 (hashNat cseed (k + 9100) % 65) }
+  return (m, o, s!"chn={chn} pat={npat} len={len} smp={nsmp} last={lastMode} fx={fxOn} nullEmpty={nullEmpty}")
+
+end GenIt
+
 /-! ### commands -/
 def seedState (seed : Nat) : UInt64 :=
   let s := UInt64.ofNat seed * 0x9E3779B97F4A7C15 + 0xD1B54A32D192ED03
@@ -361,7 +448,7 @@ def cmdGen (fmt id : String) (seed size : Nat) : IO Unit := do
       | none => "none"
       | some m' => if m' = m then "ok" else "differ"
     IO.println s!"rt {rt}"
-    IO.println s!"wf {decide (Mod.WellFormed m o)}"
+    IO.println s!"wf {decide (Mod.WellFormed m o ∧ Mod.NoAdpcm m.smps)}"
     emit (dumpModule m)
   | "s3m" =>
     let ((m, o, desc), _) := (GenS3m.gen size).run (seedState seed)
@@ -384,7 +471,19 @@ def cmdGen (fmt id : String) (seed size : Nat) : IO Unit := do
       | some m' => if m' = Xm.loaded m then "ok" else "differ"
     IO.println s!"rt {rt}"
     IO.println s!"wf {decide (Xm.WellFormed m o)}"
+    IO.println s!"excluded {decide (¬ Xm.EndOk m o)}"
     emit (dumpModule (Xm.loaded m))
+  | "it" =>
+    let ((m, o, desc), _) := (GenIt.gen size).run (seedState seed)
+    let bytes := It.write m o
+    IO.println s!"opts {desc}"
+    IO.println s!"hex {toHex bytes}"
+    let rt := match It.read bytes with
+      | none => "none"
+      | some m' => if m' = m then "ok" else "differ"
+    IO.println s!"rt {rt}"
+    IO.println s!"wf {decide (It.WellFormed m o)}"
+    emit (dumpModule m)
   | _ => IO.println "unsupported"
   IO.println "end"
 
@@ -395,6 +494,7 @@ def cmdRead (fmt id hex : String) : IO Unit := do
     | "mod" => Mod.read bytes
     | "s3m" => S3m.read bytes
     | "xm" => Xm.read bytes
+    | "it" => It.read bytes
     | _ => none
   match r with
   | none => IO.println "silent"
